@@ -103,7 +103,7 @@ var tLeaves = []tLeaf{
 	{"dtiny", true, false, true, false}, {"dbig", true, false, true, false},
 	{"''", false, false, false, false}, {"des", false, false, false, false}, {"'0'", true, false, false, false}, {"'a'", true, false, false, false}, {"' '", true, false, false, false}, {"'false'", true, false, false, false}, {"ds", true, false, false, false},
 	{"[]", true, false, false, false}, {"[0]", true, false, false, false}, {"darr", true, false, false, true}, {"dearr", true, false, false, true},
-	{"dm", true, false, false, true}, {"dem", true, false, false, true}, {"dt", true, false, false, true}, {"dzt", true, false, false, false}, {"fzt()", true, false, false, false}, {"dems", true, false, false, true}, {"dfn", true, false, false, true}, {"dst", true, false, false, false}, {"dpst", true, false, false, true},
+	{"dm", true, false, false, true}, {"dem", true, false, false, true}, {"dt", true, false, false, true}, {"dzt", true, false, false, false}, {"fzt()", true, false, false, false}, {"dnow", true, false, false, true}, {"dems", true, false, false, true}, {"dfn", true, false, false, true}, {"dst", true, false, false, false}, {"dpst", true, false, false, true},
 }
 
 type tStruct struct{ A int }
@@ -112,7 +112,7 @@ func c06Data(log *[]string) map[string]interface{} {
 	return map[string]interface{}{
 		"dnilp": (*int)(nil), "dnil": nil, "dnd": (*decimal.Big)(nil), "fnd": func() (*decimal.Big, error) { return nil, nil }, "dz": 0, "df0": 0.0, "dnegz": math.Copysign(0, -1), "dnan": math.NaN(), "dinf": math.Inf(1), "dninf": math.Inf(-1),
 		"dtiny": decimal.New(1, 500), "dbig": decimal.New(7, -500), "di7": int64(7), "des": "", "ds": "str", "darr": []interface{}{1, "x"}, "dearr": []interface{}{}, "dm": map[string]interface{}{"k": 1}, "dem": map[string]interface{}{},
-		"dt": time.Unix(1700000000, 0).UTC(), "dzt": time.Time{}, "fzt": func() (time.Time, error) { return time.Time{}, nil }, "dems": []string{}, "dfn": func() (int, error) { return 1, nil }, "dst": tStruct{3}, "dpst": &tStruct{4},
+		"dt": time.Unix(1700000000, 0).UTC(), "dzt": time.Time{}, "dnow": time.Now(), "fzt": func() (time.Time, error) { return time.Time{}, nil }, "dems": []string{}, "dfn": func() (int, error) { return 1, nil }, "dst": tStruct{3}, "dpst": &tStruct{4},
 		"rec": func(tag string) (string, error) { *log = append(*log, tag); return tag, nil },
 	}
 }
@@ -349,6 +349,9 @@ var c06Select = core.Mon(c06, "selection", func(w *core.W, n *TNode) {
 		return
 	}
 	want := ev.([]interface{})[0]
+	if orig, fromData := data[leaf.Src]; fromData && leaf.Ident {
+		want = orig // the caller's own value (a time with its monotonic reading, a container with its identity)
+	}
 	if leaf.Ident {
 		w.Count("identity_checked")
 		if !samePointer(got, want) {
